@@ -858,9 +858,12 @@ def select__schema_element_kind_test(self: XPathFunction, context: ta.ContextTyp
         if self.parser.schema.get_element(qname) is None:
             raise self.error('XPST0008', "element %r not found in schema" % element_name)
 
+        # the declared element or a member of its substitution group
+        names = {qname}
+        names.update(e.name for e in self.parser.schema.get_substitution_group(qname) or ())
         matched = False
         for item in context.iter_children_or_self():
-            if isinstance(item, ElementNode) and item.name == qname:
+            if isinstance(item, ElementNode) and item.name in names:
                 matched = True
                 yield item  # every match; the iteration restores the context when it ends
         if matched or context.axis != 'self':
